@@ -33,7 +33,7 @@ class Skip(Exception):
 class Law(object):
     def __init__(self, name, check, strategy=None, enumerate=None, nontrivial=None, key=None,
                  classes=None, required=(), quick=1000, thorough=20000,
-                 shards=(4, 16), rule='', exhaustive=False, shrink=True, setup=None, weight=None, nt_weight=None):
+                 shards=(4, 16), rule='', exhaustive=False, shrink=True, setup=None, weight=None, nt_weight=None, guard=None):
         assert (strategy is None) != (enumerate is None)
         self.name = name
         self.check = check
@@ -50,6 +50,7 @@ class Law(object):
         self.exhaustive = exhaustive
         self.shrink = shrink
         self.setup = setup
+        self.guard = guard        # seconds one case may take before the run is declared inconclusive (default: runner.CASE_GUARD_S)
         self.weight = weight or (lambda case: 1)
         self.nt_weight = nt_weight or self.weight
 
